@@ -109,11 +109,87 @@ def dup_model(exp, sh, assign, start=-1):
     return rec(exp)
 
 
+def simulate_dup(sh, start, assign, LABEL, add_self):
+    """Executable model of the listed defect in the copying form: when a node is accepted (T or Z) the
+    copy routine first materialises the node itself as a pending parent and then adds it once more
+    below that copy.  With clones this second copy can collide with a kept child of the same data_id
+    (UniqueConstraintError).  Returns the nested result [(label, id, kids)] or "COLLISION"."""
+
+    class Collision(Exception):
+        pass
+
+    class Stop(Exception):
+        pass
+
+    def new(i):
+        return [LABEL[i][0], LABEL[i][1], []]
+
+    def add(parent, i):
+        if any(c[1] == LABEL[i][1] for c in parent[2]):
+            raise Collision()
+        n = new(i)
+        parent[2].append(n)
+        return n
+
+    def add_from(parent, i):
+        for c in sh.kids[i]:
+            n = add(parent, c)
+            add_from(n, c)
+
+    root = ["<root>", None, []]
+    top = root
+    if add_self:
+        top = add(root, start)
+    stack = [(True, top)]
+
+    def create_parents():
+        p = stack[0][1]
+        for k, (existing, x) in enumerate(stack):
+            if existing:
+                p = x
+            else:
+                p = add(p, x)
+                stack[k] = (True, p)
+        return p
+
+    def visit(i):
+        for c in sh.kids[i]:
+            stack.append((False, c))
+            v = assign[c]
+            if v == "Z":
+                p = create_parents()
+                add(p, c)
+            elif v == "X":
+                raise Stop()
+            elif v == "S":
+                p = create_parents()
+                add_from(p, c)
+            elif v in "FN":
+                visit(c)
+            elif v == "T":
+                p = create_parents()
+                add(p, c)
+                visit(c)
+            stack.pop()
+
+    try:
+        visit(start)
+    except Stop:
+        pass
+    except Collision:
+        return "COLLISION"
+
+    def tup(n):
+        return (n[0], n[1], [tup(k) for k in n[2]])
+
+    return [tup(k) for k in root[2]]
+
+
 def make_pred(assign, form, calls, idx_of):
     from nutree import SelectBranch, SkipBranch, StopTraversal
 
     def pred(node):
-        i = idx_of[node.data]
+        i = idx_of[id(node)]
         calls.append(i)
         v = assign[i]
         if v == "T":
@@ -169,10 +245,30 @@ def run_case(case, res):
         res.count(f"verdict:{v}:{form}")
     bad = []
 
+    lab = case.get("lab", "uniq")
+    lrng = rng_for(case.get("lseed", 0), "c08-lab", case["f"])
+    clabs = gen.clone_labeling(lrng, f, ["a", "b", "c"]) if lab == "clones" else None
+    if lab == "clones" and clabs is None:
+        lab = "uniq"
+
     def fresh():
         t = Tree("t")
-        nodes = gen.build(t, f, lambda i: f"n{i}")
-        return t, nodes, {f"n{i}": i for i in range(sh.n)}
+        if lab == "eqsib":
+            nodes = gen.build(t, f, lambda i: "x", data_id=lambda i: f"id{i}")
+        elif lab == "clones":
+            nodes = gen.build(t, f, lambda i: clabs[i])
+        else:
+            nodes = gen.build(t, f, lambda i: f"n{i}")
+        return t, nodes, {id(nd): i for i, nd in enumerate(nodes)}
+
+    _t0, _n0, _ = fresh()
+    LABEL = [(str(nd.data), nd.data_id) for nd in _n0]
+
+    def lab_nest(lst):
+        return [(LABEL[i][0], LABEL[i][1], lab_nest(k)) for i, k in lst]
+
+    def nest_lab(holder):
+        return [(str(c.data), c.data_id, nest_lab(c)) for c in holder.children]
 
     def attempt(fn):
         try:
@@ -193,9 +289,9 @@ def run_case(case, res):
             if isinstance(r, tuple):
                 bad.append(f"filter() raised {r[1]}: {r[2]}")
             else:
-                got = nest_idx(holder, idx_of)
-                if got != exp:
-                    bad.append(f"filter() result {got}, expected {exp}")
+                got = nest_lab(holder)
+                if got != lab_nest(exp):
+                    bad.append(f"filter() result {got}, expected {lab_nest(exp)}")
                 elif calls != expcalls:
                     bad.append(f"filter() asked the predicate about {calls}, expected {expcalls}")
                 else:
@@ -212,7 +308,7 @@ def run_case(case, res):
                         t0, nodes0, _ = fresh()
                         def outside(tt, nn):
                             def rec(h):
-                                return [(c.data, rec(c) if c is not nn[start] else "BRANCH") for c in h.children]
+                                return [(c.data, c.data_id, rec(c) if c is not nn[start] else "BRANCH") for c in h.children]
                             return rec(tt)
                         if outside(t, nodes) != outside(t0, nodes0):
                             bad.append("filter() on a branch changed nodes outside the branch")
@@ -233,33 +329,35 @@ def run_case(case, res):
                 else:
                     r = attempt(lambda: holder.copy(add_self=False, predicate=pred))
                 res.count("copying_runs")
+                sim = simulate_dup(sh, start, assign, LABEL, add_self=(start != -1 and which != "copy_noself"))
                 if isinstance(r, tuple):
-                    bad.append(f"{which} raised {r[1]}: {r[2]}")
+                    if r[1] == "UniqueConstraintError" and sim == "COLLISION":
+                        res.known_finding(KNOWN_DUP, case)
+                        res.count("known_dup_collision")
+                    else:
+                        bad.append(f"{which} raised {r[1]}: {r[2]}")
                     continue
                 if nest_ident(t) != before:
                     bad.append(f"{which} modified the source tree")
                 if r is t:
                     bad.append(f"{which} returned the source tree")
+                got = nest_lab(r)
                 if start == -1 or which == "copy_noself":
-                    got = nest_idx(r, idx_of)
-                    e = exp
+                    e = lab_nest(exp)
                 else:
-                    got = nest_idx(r, idx_of)
-                    e = [(start, exp)]
+                    e = lab_nest([(start, exp)])
                 if calls != expcalls:
                     bad.append(f"{which} asked the predicate about {calls}, expected {expcalls}")
                 if got == e:
                     res.count("copying_equal_definition")
                     # data objects are shared with the source
+                    srcdata = {id(nd.data) for nd in nodes}
                     for c in reachable(r):
-                        if c.data is not nodes[idx_of[c.data]].data:
+                        if id(c.data) not in srcdata:
                             bad.append(f"{which}: copied node holds a different data object")
                             break
                 else:
-                    e_dup = dup_model(exp, sh, assign, start)
-                    if start != -1 and which != "copy_noself":
-                        e_dup = [(start, e_dup)]
-                    if got == e_dup:
+                    if sim != "COLLISION" and got == sim:
                         res.known_finding(KNOWN_DUP, case)
                     else:
                         bad.append(f"{which} result {got}, expected {e}")
@@ -319,6 +417,9 @@ def run_shard(spec, res):
                     for form in forms:
                         for s in starts:
                             run_case({"f": fc, "assign": assign, "form": form, "start": s}, res)
+                    if n >= 2:
+                        lab = ["eqsib", "clones"][(k // NSHARDS) % 2]
+                        run_case({"f": fc, "assign": assign, "form": forms[0], "start": starts[0], "lab": lab, "lseed": k}, res)
                 if res.expired():
                     res.count("exhaustive_cut")
                     res.inconc("enumeration cut by time budget")
@@ -331,7 +432,8 @@ def run_shard(spec, res):
             w = rng.choice([[6, 5, 2, 1, 1, 1, 0.3], [3, 3, 1, 2, 2, 2, 1], [1, 6, 1, 1, 1, 1, 0.2]])
             assign = "".join(rng.choices(V, weights=w, k=n))
             run_case({"f": gen.code(f), "assign": assign, "form": rng.choice(["ret", "raise", "stopiter"]),
-                      "start": rng.choice([-1, -1, rng.randrange(n)])}, res)
+                      "start": rng.choice([-1, -1, rng.randrange(n)]), "lab": rng.choice(["uniq", "eqsib", "clones"]),
+                      "lseed": rng.randrange(10**6)}, res)
             if res.expired():
                 break
 
